@@ -297,7 +297,9 @@ def _one_record(draw, tag, max_genes=4, isoforms=True):
         txs = uniq
         coding = any("cds" in t for t in txs)
         hi = max(t["exons"][-1][1] for t in txs)
-        genes.append({"transcripts": txs, "gene_id": draw(st.one_of(st.none(), st.just("%sgid%d" % (tag, i)))), "gene_symbol": "GENE%s%d" % (tag, i),
+        gid_ = draw(st.one_of(st.none(), st.just("%sgid%d" % (tag, i))))
+        # a gene may be known by its id only (the writer then falls back to the id for /gene and the locus tag)
+        genes.append({"transcripts": txs, "gene_id": gid_, "gene_symbol": None if (gid_ and draw(st.integers(0, 4)) == 0) else "GENE%s%d" % (tag, i),
                       "gene_type": "protein_coding" if coding else txs[0]["transcript_type"], "locus_tag": draw(st.one_of(st.none(), st.just("LT%s_%03d" % (tag, i)))),
                       "qualifiers": draw(S.simple_qualifiers(1))})
         cursor = hi + draw(st.sampled_from([0, 0, 1, 3, 7]))
